@@ -1,3 +1,76 @@
-(* C04 — placeholder replaced below once MgmtProofs is in place *)
-From Coq Require Import List.
-From PyCasbin Require Import Base Mgmt.
+(* C05 — domains are isolated tenants. *)
+From Coq Require Import List NArith Bool.
+From PyCasbin Require Import Base Effect Enforce Policy PolicyProofs RoleGraph Mgmt MgmtLinks MgmtProofs DomainProofs.
+Import ListNotations.
+Local Open Scope N_scope.
+
+(* two states that agree on what domain D can see (D's permission rules, D's role assignments)
+   decide every request of D alike; D <> "" is needed: the empty-policy branch judges the matcher
+   against empty rule fields, which only a request of the empty domain can match *)
+Theorem C05_decision_depends_on_own_domain_only : forall k, k_dom k = true -> forall s s' D req,
+  Inv k s -> Inv k s' -> wf_p k s -> wf_p k s' -> dom_view k D s s' ->
+  fld req 1 = D -> D <> 0 ->
+  decision_of (snd (enforce_ex_m k s req)) = decision_of (snd (enforce_ex_m k s' req)).
+Proof. exact domain_isolation. Qed.
+Print Assumptions C05_decision_depends_on_own_domain_only.
+
+(* one call touching only other domains (op_foreign: every rule argument, or the pinned domain
+   column of a filter, names another domain) leaves D's view untouched *)
+Theorem C05_foreign_call_preserves_view : forall k D s o,
+  k_prio k = false -> k_g k = true -> Inv k s -> NoDup (m_p s) -> op_foreign k D o = true ->
+  dom_view k D s (fst (step k s o)).
+Proof. exact foreign_step_view. Qed.
+Print Assumptions C05_foreign_call_preserves_view.
+
+(* the property: after ANY history of such calls (any length; single/batch/filtered/update for p and g,
+   role assignment in other domains, queries in any domain that build caches) every request of D is
+   decided as before and every role query in D answers as before *)
+Theorem C05_foreign_history_preserves_domain : forall k D ops s req,
+  k_dom k = true -> k_prio k = false -> k_g k = true ->
+  Inv k s -> PInv k s ->
+  forallb (fun o => op_ok k o && op_foreign k D o && op_pwf k o) ops = true ->
+  fld req 1 = D -> D <> 0 ->
+  let s' := fst (run k s ops) in
+  decision_of (snd (enforce_ex_m k s req)) = decision_of (snd (enforce_ex_m k s' req))
+  /\ forall u, fst (rmk_get_roles (m_rm s) u D) = fst (rmk_get_roles (m_rm s') u D)
+            /\ fst (rmk_get_users (m_rm s) u D) = fst (rmk_get_users (m_rm s') u D).
+Proof. exact foreign_history_preserves_decisions. Qed.
+Print Assumptions C05_foreign_history_preserves_domain.
+
+(* role queries in D follow D's assignments only *)
+Theorem C05_role_queries_scoped : forall k, k_dom k = true -> forall s s' D u,
+  Inv k s -> Inv k s' -> glinks_dom (m_g s) D = glinks_dom (m_g s') D ->
+  fst (rmk_get_roles (m_rm s) u D) = fst (rmk_get_roles (m_rm s') u D)
+  /\ fst (rmk_get_users (m_rm s) u D) = fst (rmk_get_users (m_rm s') u D).
+Proof. exact domain_role_queries. Qed.
+Print Assumptions C05_role_queries_scoped.
+
+(* get_permissions_for_user_in_domain / get_implicit_permissions_for_user(domain) report only rules of that domain *)
+Theorem C05_scoped_permissions_in_domain : forall l u d out,
+  get_filtered l 0 [u; d] = Ok out -> d <> 0 -> forall r, In r out -> nth_error r 1 = Some d /\ In r l.
+Proof. exact scoped_permissions_in_domain. Qed.
+Print Assumptions C05_scoped_permissions_in_domain.
+
+(* non-vacuity: a two-domain policy built by management calls; then d2 is changed in five ways
+   (with a query in d2 that builds its cache); alice's right in d1 stays *)
+Definition k_dom_ex : mkind := mkKind true true false false false AO true 0.
+Definition setup_ex : list op :=
+  [OAdd 0 [1006; 1013; 1008; 1011]; OAdd 1 [1003; 1006; 1013]; OAdd 1 [1004; 1006; 1014];
+   QEnforce [1003; 1013; 1008; 1011]].
+Definition foreign_ex : list op :=
+  [OAdd 1 [1003; 1007; 1014]; QEnforce [1003; 1014; 1008; 1011]; ORemove 1 [1004; 1006; 1014];
+   OAdd 0 [1007; 1014; 1008; 1011]; ORemoveFiltered 0 1 [1014]; OAddRoleForUserInDomain 1004 1006 1014].
+Example C05_example :
+  let s := fst (run k_dom_ex (init k_dom_ex []) setup_ex) in
+  forallb (fun o => op_ok k_dom_ex o && op_foreign k_dom_ex 1013 o && op_pwf k_dom_ex o) foreign_ex = true
+  /\ Inv k_dom_ex s /\ PInv k_dom_ex s
+  /\ decision_of (snd (enforce_ex_m k_dom_ex s [1003; 1013; 1008; 1011])) = Ok true
+  /\ decision_of (snd (enforce_ex_m k_dom_ex (fst (run k_dom_ex s foreign_ex)) [1003; 1013; 1008; 1011])) = Ok true.
+Proof.
+  cbv zeta. split; [vm_compute; reflexivity|]. split; [apply run_inv; [apply init_inv|vm_compute; reflexivity]|].
+  split; [|split; vm_compute; reflexivity].
+  unfold PInv, wf_p.
+  replace (m_p (fst (run k_dom_ex (init k_dom_ex []) setup_ex))) with [[1006; 1013; 1008; 1011]]
+    by (vm_compute; reflexivity).
+  split; [constructor; [intros []|constructor]|constructor; [reflexivity|constructor]].
+Qed.
